@@ -15,7 +15,7 @@ func init() {
 		RealParts:  []string{"all of neat/genetics incl. both epoch executors and every operator (through the verif export file)", "Genome.Genesis / network construction", "math/rand seeded from the tape"},
 		StubParts:  []string{"fitness assignment", "innovation registry in about half of the operator histories (reference registry), the real Population in the rest", "goroutine choice for parallel-executor worlds"},
 		Assumes:    []string{"start genomes are well-formed, non-modular, with at least one gene and consecutive trait ids", "NewPopulationRandom worlds whose constructor already emits a gene-less genome are skipped (precondition)"},
-		ProbeNames: []string{"probe.op.mutateAddNode.ok", "probe.op.mutateAddLink.ok", "probe.op.mutateConnectSensors.ok", "probe.op.mateSinglePoint", "probe.op.mateMultipoint", "probe.op.mateMultipointAvg", "probe.interspecies_parents", "probe.genome.recurrent", "probe.genome.disabled", "probe.random_world", "probe.parallel_epoch", "probe.checkpoint_restore"},
+		ProbeNames: []string{"probe.op.mutateAddNode.ok", "probe.op.mutateAddLink.ok", "probe.op.mutateConnectSensors.ok", "probe.op.mateSinglePoint", "probe.op.mateMultipoint", "probe.op.mateMultipointAvg", "probe.interspecies_parents", "probe.genome.recurrent", "probe.genome.disabled", "probe.random_world", "probe.parallel_epoch", "probe.checkpoint_restore", "probe.op.planted_link"},
 	})
 }
 
@@ -201,6 +201,17 @@ func scenarioC01(c *RunCtx) {
 			allOps[i] = i
 		}
 		for i := 0; i < k; i++ {
+			if t.Chance("plant", 1, 6) {
+				pa := t.Draw("plant.a", len(env.Pool))
+				if d := env.PlantLink(pa); d != "" {
+					c.Op("%s", d)
+					if bad := WellFormed(env.Pool[pa], w.Ancestors, false); len(bad) > 0 {
+						c.Crash = "harness: the planted link made the operand ill-formed: " + bad[0]
+						panic(stopRun{})
+					}
+				}
+				continue
+			}
 			op, a, b := env.DrawOp(allOps)
 			res := env.Apply(op, a, b, c.Lib)
 			c.Steps++
